@@ -2,7 +2,7 @@
    (i) for every result of the evaluation phase, for every input, matcher outcome (the matched pair a),
    metric selection and decision metric/threshold; (ii) for every directly constructed result. *)
 From Pan Require Import Base.Common Base.Sx Base.Rnd64 Model.MetricTable Model.Metrics Model.EdgeCase Model.Result
-  Model.ZeroCase Model.Pipeline Proofs.ResultFacts Proofs.MetricsFacts Proofs.PipelineFacts Proofs.C02Proofs Proofs.Rnd64Facts Proofs.RoundedFacts.
+  Model.ZeroCase Model.Pipeline Proofs.ResultFacts Proofs.MetricsFacts Proofs.PipelineFacts Proofs.C02Proofs Proofs.Rnd64Facts Proofs.RoundedFacts Proofs.PipelineBookkeeping.
 Open Scope Z_scope.
 
 (* tp + fp = number of predicted instances, tp + fn = number of reference instances,
@@ -13,6 +13,12 @@ Theorem C02_counts_and_lists : forall x c a r, eval_phase x c a = Ok r ->
   o_np r = n_pred_inst a /\ o_nr r = n_ref_inst a /\
   (forall mr, In mr (o_metrics r) -> Z.of_nat (length (m_all mr)) = o_tp r).
 Proof. exact eval_phase_bookkeeping. Qed.
+
+(* ... and for every result of the WHOLE pipeline (zero-instance early exit, any matcher, relabelling, evaluation) *)
+Theorem C02_pipeline_bookkeeping : forall x c a r, pipeline x c a = Ok r ->
+  o_tp r + o_fp r = o_np r /\ o_tp r + o_fn r = o_nr r /\ 0 <= o_tp r <= Z.min (o_np r) (o_nr r) /\
+  (forall mr, In mr (o_metrics r) -> Z.of_nat (length (m_all mr)) = o_tp r).
+Proof. exact pipeline_bookkeeping. Qed.
 
 (* an instance that fails the decision threshold is neither in the lists nor in tp *)
 Theorem C02_decision_threshold_filters_tp : forall x ems dmo thr a tp lists dicts,
